@@ -48,6 +48,14 @@ def run(res, tier, only_case=None):
                     for s in sizes:
                         items.append(("%s:chunk%d/%d:bit%d:buf%d" % (b.kind, k, n - 1, bit, s), k, before, b.content.hex(),
                                       "F %s R%d,r%d,r%d,q" % (bytes(m).hex(), s, s, s)))
+                    # the same corruption met through other call sequences on one context (oracle only, the model
+                    # has no validation calls / error clearing): a verdict taken before the reads, an error cleared
+                    # and the read retried, the chunk requested directly and again after clearing the error
+                    s = sizes[0]
+                    for seq in ("v,R%d,r%d,r%d,q" % (s, s, s), "f,R%d,r%d,q" % (s, s), "R%d,e,r%d,e,r%d,e,r%d,q" % (s, s, s, s),
+                                "g%d,e,g%d,e,g%d" % (k, k, k), "v,g%d,g%d" % (k, k)):
+                        items.append(("%s:chunk%d/%d:bit%d:seq[%s]:oracle-only" % (b.kind, k, n - 1, bit, seq), k, before, b.content.hex(),
+                                      "F %s %s" % (bytes(m).hex(), seq)))
     lines = [it[4] for it in items]
     io, mo, ierrs = c02.run_both(lines, wd, impl, model)
     errmap = dict(ierrs)
@@ -69,6 +77,35 @@ def run(res, tier, only_case=None):
                 res.count("still-decompresses")
             else:
                 res.count("decoder-error")
+        if tag.endswith(":oracle-only"):
+            # generic oracle: the bytes handed out by successful reads, in order, are a prefix of the original content
+            # that ends before the corrupted chunk; a direct request for the corrupted chunk never returns data
+            if toks and toks[0] == "open=1" and limit is not None and orig_hex is not None:
+                orig = bytes.fromhex(orig_hex)
+                pos, bad = 0, None
+                for t in toks[1:]:
+                    if t[0] in "Rr" and t[1] == "=":
+                        ret, n, hx = t[2:].split("!")[0].split("/")
+                        n = int(n)
+                        if n > 0:
+                            if pos + n > limit:
+                                bad = "%s hands out bytes %d..%d although only %d precede the corrupted chunk" % (t[:12], pos, pos + n, limit)
+                                break
+                            if hx != c02.h16(orig[pos:pos + n]):
+                                bad = "%s hands out bytes that are not the original content at offset %d" % (t[:12], pos)
+                                break
+                            pos += n
+                    elif t[0] == "g" and t[1] == "=":
+                        ret = t[2:].split("!")[0].split("/")[0]
+                        if ret.lstrip("-").isdigit() and int(ret) > 0:
+                            bad = "a direct request for the corrupted chunk returns %s bytes" % ret
+                            break
+                    elif t.startswith("q=1"):
+                        bad = "zck_close succeeds on a file with a corrupted chunk"
+                        break
+                if bad:
+                    res.violation("oracle", key, "corrupted chunk (%s): %s" % (tag, bad), case)
+            continue
         if len(toks) >= 5 and toks[0] == "open=1" and limit is not None and orig_hex is not None:
             orig = bytes.fromhex(orig_hex)
             r = toks[1][2:].split("!")[0].split("/")
